@@ -187,6 +187,49 @@ Definition atomic_new (me : nat) (caus released : vv) (value : N) : atomic_state
   | inl s1 => inl (atomic_store s1 me caus released vv_new value Release)
   end.
 
+(* ---- State::raise_modification_order, State::close_rmw_atomicity ---- *)
+(* move store [a] later in the modification order; what was ordered after it stays after it *)
+Definition raise_mo (stores : list astore) (a : nat) (v : vv) : list astore :=
+  let before := st_mo (nth a stores store_default) in
+  let after := vv_join before v in
+  if vv_eqb after before then stores
+  else mapi (fun i x => if Nat.eqb a i then st_set_mo x after
+                        else if vv_lt before (st_mo x) then st_set_mo x (vv_join (st_mo x) after)
+                        else x) stores.
+
+(* one (rmw, i) step of the double loop *)
+Definition close_step (acc : list astore * bool) (ri : nat * nat) : list astore * bool :=
+  let '(stores, changed) := acc in
+  let '(r, i) := ri in
+  let sr := nth r stores store_default in
+  match st_rmw_src sr with
+  | Some (slot, sid) =>
+      if negb (Nat.eqb slot r) && Nat.eqb (st_id (nth slot stores store_default)) sid
+      then
+        if Nat.eqb i r || Nat.eqb i slot then acc
+        else
+          let mo_source := st_mo (nth slot stores store_default) in
+          let mo_rmw := st_mo sr in
+          let mo := st_mo (nth i stores store_default) in
+          if vv_le mo_source mo && negb (vv_le mo_rmw mo) then (raise_mo stores i mo_rmw, true)
+          else if vv_le mo mo_rmw && negb (vv_le mo mo_source) then (raise_mo stores slot mo, true)
+          else acc
+      else acc
+  | None => acc
+  end.
+
+(* the store of an RMW immediately follows the store it read: whatever is ordered after the
+   source is ordered after the RMW, whatever is ordered before the RMW is ordered before its
+   source; rounds over all (rmw, i) pairs of live slots until nothing changes *)
+Fixpoint close_rmw_atomicity (fuel live : nat) (stores : list astore) : list astore :=
+  match fuel with
+  | 0 => stores
+  | S f =>
+      let '(stores', changed) :=
+        fold_left close_step (list_prod (seq 0 live) (seq 0 live)) (stores, false) in
+      if changed then close_rmw_atomicity f live stores' else stores'
+  end.
+
 (* ---- apply_load_coherence ---- *)
 Definition apply_load_coherence (s : atomic_state) (caus : vv) (index : nat) : atomic_state :=
   let mo :=
@@ -206,7 +249,9 @@ Definition apply_load_coherence (s : atomic_state) (caus : vv) (index : nat) : a
     if vv_eqb mo before then stores1
     else mapi (fun i x => if negb (Nat.eqb index i) && vv_lt before (st_mo x)
                           then st_set_mo x (vv_join (st_mo x) mo) else x) stores1 in
-  at_set_stores s stores2 (at_cnt s).
+  (* RMW atomicity: the new edges must not put a store between an RMW and the store it read *)
+  at_set_stores s (close_rmw_atomicity (4 * MAX_ATOMIC_HISTORY) (Nat.min (at_cnt s) MAX_ATOMIC_HISTORY) stores2)
+                (at_cnt s).
 
 (* ---- match_load_to_stores ---- *)
 (* inner loop for a fixed i: Some true = candidate, Some false = `continue 'outer`,
